@@ -49,6 +49,12 @@ SPECIAL = [
     'c1ccc2c(c1)n1cccc1-2', 'c1ccc(cc1)-c1cccc-1', 'c1cccc2c1-c1ccccc1C2', 'c1ccccc1-c1ccccc1-c1ccccc1',
     'c1cc[n+]2ccccc2c1', 'c1ccn2cccc2c1', 'c1cnc2n1cccc2', 'c1ccc2occc2c1', 'c1ccc2sccc2c1', 'c1ccc2[nH]cnc2c1',
     'c1ccc2ncncc2c1', 'n1c2ccccc2nc2ccccc12', 'c1cc2ccc1CC2', 'c1cc2ccc1CCc1ccc(cc1)CC2',
+    # odd aromatic systems linked by an explicit single ring-closure bond (symbol on one digit, the other, or both)
+    'c1ccc2c1CCc1cccc1-2', 'c1ccc-2c1CCc1cccc12', 'c1ccc-2c1CCc1cccc1-2', 'c1ccc2c1Cc1cccc1-2', 'c1ccc-2c1Cc1cccc12',
+    'c1ccc2c1CCCc1cccc1-2', 'c1ccc-2c1OCc1cccc12', 'c1cccc1-c1cccc1', 'c1ccc2c1CCc1cccc1=2', 'c1ccc=2c1CCc1cccc12',
+    'c1ccc2c1CCc1cccc12', 'c1ccc2c1CCc1cccc1:2', 'c1cc2cccc2c1', 'c1cc-2cccc-2c1', 'c1cc2cccc-2c1', 'c1cc-2cccc2c1',
+    'c1ccccc1-1', 'c1cc-1', 'c1ccc-1', 'c-1ccc1', 'c1ccccc-1', 'c-1ccccc1', 'c1ccccc=1', 'c=1ccccc1', 'c:1ccccc:1',
+    'c:1ccccc1', 'C1=CC=CC=C1', 'C:1:C:C:C:C:C1', 'C1:C:C:C:C:C:1', 'c1ccc(-c2ccccc2)cc1', 'c1ccc(cc1)=c1ccccc1',
 ]
 
 
